@@ -242,7 +242,7 @@ impl ScriptErr {
     }
 }
 
-#[derive(Debug)]
+#[derive(Debug, Clone, PartialEq, Eq, Hash)]
 #[allow(dead_code)]
 struct InitErr(u32);
 
@@ -381,7 +381,7 @@ impl<X> std::fmt::Debug for RecTx<X> {
     }
 }
 
-#[derive(Debug)]
+#[derive(Debug, Clone, PartialEq, Eq, Hash)]
 struct TxClosed;
 
 impl Unrecoverable for TxClosed {
